@@ -16,7 +16,7 @@ import common as C  # noqa: E402
 
 ID = "C19"
 CHECKER = "chk_config"
-THEOREMS = ['C19_omitted_is_default', 'C19_omitted_is_default_cli', 'C19_fill_defaults_total', 'C19_given_keys_land', 'C19_absent_keys_default', 'C19_invalid_choice_rejected', 'C19_valid_accepted', 'C19_rgrid_spec', 'C19_rgrid_from_keys', 'C19_cli_args_land', 'C19_cli_plan_spec', 'C19_cli_filter_iff_cutoff', 'C19_cli_lorch_iff_flag', 'C19_cli_equals_library_partial', 'C19_cli_reads_differently_refuted', 'C19_cli_reads_differently_always', 'C19_cli_drops_first_data_row', 'C19_cli_is_a_workflow_run', 'C19_cli_keen_outputs', 'C19_cli_final_flow']
+THEOREMS = ['C19_omitted_is_default', 'C19_omitted_is_default_cli', 'C19_fill_defaults_total', 'C19_given_keys_land', 'C19_absent_keys_default', 'C19_invalid_choice_rejected', 'C19_valid_accepted', 'C19_rgrid_spec', 'C19_rgrid_from_keys', 'C19_cli_args_land', 'C19_cli_plan_spec', 'C19_cli_filter_iff_cutoff', 'C19_cli_lorch_iff_flag', 'C19_cli_equals_library_partial', 'C19_cli_reads_differently_refuted', 'C19_cli_reads_differently_always', 'C19_cli_drops_first_data_row', 'C19_cli_is_a_workflow_run', 'C19_cli_keen_outputs', 'C19_cli_final_flow', 'C19_flags_omitted_is_default', 'C19_no_flags_is_default_args', 'C19_flags_omitted_same_settings']
 RULE = ("StoG(**cfg) for subsets of the optional keys (thorough: every presence pattern of the 14 optional keys; quick: sampled) with valid, "
         "invalid (unknown function name, non-boolean flag) and boundary values; r grid compared element-wise with np.arange; pystog_cli run "
         "end to end in a scratch directory in JSON and flag form, its call sequence and its files compared with driving the library with "
@@ -53,6 +53,25 @@ def generate(rng, tier):
         cases.append({"kind": "attrs", "mode": 0, "present": dict(zip(KEYS, p)), "v": v,
                       "desc": {"kind": "attrs", "n_present": sum(p), "bad_fn": bool(p[0] and v["fn"] == 3),
                                "bad_flag": bool((p[6] and v["lowq"] == 3) or (p[7] and v["lorch"] == 3))}})
+    for i in range(60 if tier == "quick" else 600):      # flag form with arbitrary subsets of the optional flags: argparse defaults
+        v = gen_values(rng)
+        v["fn"] = v["fn"] % 3
+        v["lowq"], v["lorch"] = 1 + v["lowq"] % 2, 1 + v["lorch"] % 2
+        v["Y"] = {"Scale": rng.choice([1.0, 1.5, 0.5]), "Offset": rng.choice([0.0, 0.1])}
+        v["F"] = None
+        v["rmax"], v["rpoints"] = rng.choice([5.0, 20.0]), rng.choice([50, 200])
+        p = {k: rng.randint(0, 1) for k in KEYS}
+        p.update({"rmin": 0, "qmin": 0, "qmax": 0, "rho": 1})
+        if not p["rmax"] and not p["rpoints"] and not p["rdelta"]:
+            p["rdelta"] = 1       # the default grid has 5001 points: keep most cases small
+            v["rdelta"] = 0.5
+        if not p["rdelta"] and not p["rpoints"]:
+            if i % 3 == 0:
+                p["rmax"] = 1         # the default --Rpoints (5000) on a short range: 5001 grid points
+            else:
+                p["rpoints"] = 1
+        cases.append({"kind": "attrs", "mode": 1, "present": p, "v": v,
+                      "desc": {"kind": "attrs", "form": "flags", "n_present": sum(p.values()), "bad_fn": False, "bad_flag": False}})
     n_cli = 14 if tier == "quick" else 60
     for i in range(n_cli):
         v = gen_values(rng)
@@ -63,7 +82,7 @@ def generate(rng, tier):
         mode = i % 2
         if mode == 1:
             p = {k: 1 for k in KEYS}
-            p.update({"rmin": 0, "qmin": 0, "qmax": 0, "rdelta": i % 4 == 1})
+            p.update({"rmin": 0, "qmin": 0, "qmax": 0, "rdelta": int(i % 4 == 1), "bcoh": int(i % 3 != 0), "btot": int(i % 5 != 0), "merge": int(i % 4 != 2)})
             v["ff"] = 3 if i % 3 else 2
             v["Y"] = {"Scale": rng.choice([1.0, 1.5]), "Offset": rng.choice([0.0, 0.1])}
             v["F"] = None
@@ -139,18 +158,28 @@ def build_kwargs(case):
 
 def build_argv(case, filenames):
     p, v = case["present"], case["v"]
-    argv = ["--density", repr(v["rho"]), "--real-space-function", FN[v["fn"]], "--Rmax", repr(v["rmax"]), "--Rpoints", str(int(v["rpoints"])),
-            "--bcoh_sqrd", repr(v["bcoh"]), "--btot_sqrd", repr(v["btot"]), "--stem-name", "cli",
-            "--merging", repr(v["Y"]["Offset"]), repr(v["Y"]["Scale"])]
+    argv = ["--density", repr(v["rho"]), "--stem-name", "cli"]
+    if p["fn"]:
+        argv += ["--real-space-function", FN[v["fn"]]]
+    if p["rmax"]:
+        argv += ["--Rmax", repr(v["rmax"])]
+    if p["rpoints"]:
+        argv += ["--Rpoints", str(int(v["rpoints"]))]
+    if p["bcoh"]:
+        argv += ["--bcoh_sqrd", repr(v["bcoh"])]
+    if p["btot"]:
+        argv += ["--btot_sqrd", repr(v["btot"])]
+    if p["merge"]:
+        argv += ["--merging", repr(v["Y"]["Offset"]), repr(v["Y"]["Scale"])]
     if p["rdelta"]:
         argv += ["--Rdelta", repr(v["rdelta"])]
-    if v["ff"] == 3:
+    if p["ff"] and v["ff"] == 3:
         argv += ["--fourier-filter-cutoff", repr(v["cutoff"])]
-    if v["lorch"] == 2:
+    if p["lorch"] and v["lorch"] == 2:
         argv += ["--lorch-flag"]
-    if v["lowq"] == 2:
+    if p["lowq"] and v["lowq"] == 2:
         argv += ["--low-q-correction"]
-    for fn_, d in zip(filenames, case["files"]):
+    for fn_, d in zip(filenames, case.get("files", [])):
         argv += ["-f", fn_, "0.0", "50.0", "0.0", "1.0", "0.0", SL.KINDS[d["kind"]]]
     return argv
 
@@ -227,7 +256,10 @@ def run_impl(pystog, case):
     import pystog.io as pio
 
     if case["kind"] == "attrs":
-        kw = build_kwargs(case)
+        if case["mode"] == 1:
+            kw = pio.parse_cli_args(pio.get_cli_parser().parse_args(build_argv(case, [])))
+        else:
+            kw = build_kwargs(case)
         try:
             st = pystog.StoG(**kw)
         except Exception as e:
@@ -363,8 +395,13 @@ def oracle(pystog, case, res):
             return "valid configuration rejected: %s (kwargs %s)" % (res["error"], json.dumps(res["kwargs"], default=str)[:300])
         a = res["attrs"]
         rmax = v["rmax"] if p["rmax"] else 50.0
+        if case["mode"] == 1:    # flag form: the parser's documented defaults (Rpoints 5000 -> step Rmax/5000)
+            rp = v["rpoints"] if p["rpoints"] else 5000
+            want_rdelta = v["rdelta"] if p["rdelta"] else rmax / rp
+        else:
+            want_rdelta = v["rdelta"] if p["rdelta"] else (rmax / v["rpoints"] if p["rpoints"] else 0.01)
         want = {1: v["fn"] if p["fn"] else 0, 2: v["rmin"] if p["rmin"] else 0.0, 3: rmax,
-                4: v["rdelta"] if p["rdelta"] else (rmax / v["rpoints"] if p["rpoints"] else 0.01),
+                4: want_rdelta,
                 5: v["rho"] if p["rho"] else 1.0, 6: v["bcoh"] if p["bcoh"] else 1.0, 7: v["btot"] if p["btot"] else 1.0,
                 8: float(p["lowq"] and v["lowq"] == 2), 9: float(p["lorch"] and v["lorch"] == 2),
                 10: float(bool(p["ff"] and v["ff"] == 3)), 12: float(bool(p["merge"] and p["qmin"])), 14: float(bool(p["merge"] and p["qmax"]))}
@@ -376,6 +413,8 @@ def oracle(pystog, case, res):
         if a[10] and a[11] != v["cutoff"]:
             return "FourierFilter.Cutoff value not stored"
         Yg = (v["Y"] or {}) if p["merge"] else {}
+        if case["mode"] == 1 and p["merge"]:
+            Yg = {"Scale": v["Y"]["Scale"], "Offset": v["Y"]["Offset"]}
         if a[16] != float(Yg.get("Scale", 1.0)) or a[17] != float(Yg.get("Offset", 0.0)):
             return "Merging.Y: scale/offset in effect are (%r, %r), expected (%r, %r) (kwargs %s)" % (
                 a[16], a[17], float(Yg.get("Scale", 1.0)), float(Yg.get("Offset", 0.0)), json.dumps(res["kwargs"], default=str)[:300])
